@@ -289,6 +289,43 @@ fn deep(r: &mut Report) {
     }
 }
 
+/// (a'): `==` on trees implies equal hashes also where `==` identifies different bit patterns (constants are compared as OrderedFloat:
+/// 0.0 == -0.0, every NaN equals every NaN); the implication is checked, so the clause never demands that two trees be equal
+fn eq_implies_hash(r: &mut Report, seed: u64) {
+    let nan2 = f32::from_bits(0x7fc0_0001);
+    let pairs: [(f32, f32); 4] = [(0.0, -0.0), (-0.0, 0.0), (f32::NAN, nan2), (-f32::NAN, f32::NAN)];
+    let wrap: Vec<(&str, Box<dyn Fn(Tree) -> Tree>)> = vec![
+        ("c", Box::new(|c| c)),
+        ("x + c", Box::new(|c| Tree::x() + c)),
+        ("c * y", Box::new(|c| c * Tree::y())),
+        ("sin(max(z, c))", Box::new(|c| Tree::z().max(c).sin())),
+        ("(x - c) / (y + c)", Box::new(|c| (Tree::x() - c.clone()) / (Tree::y() + c))),
+    ];
+    for (a, b) in pairs {
+        for (name, f) in &wrap {
+            r.cases += 1;
+            let (ta, tb) = (f(Tree::constant(a)), f(Tree::constant(b)));
+            if ta == tb {
+                let mut set = std::collections::HashSet::new();
+                set.insert(ta.clone());
+                if h(&ta) != h(&tb) || !set.contains(&tb) {
+                    r.fail(format!("eq-hash:{name}:{:#x}:{:#x}", a.to_bits(), b.to_bits()), format!("[tree-eq-hash] the trees `{name}` with c = {a:?} ({:#x}) and c = {b:?} ({:#x}) compare equal but hash differently (or a HashSet<Tree> lookup of the one misses the other)", a.to_bits(), b.to_bits()), json!({"contract":"tree_clauses","seed":seed,"eq_hash":true}));
+                }
+            }
+        }
+    }
+    // the same for the matrix of an affine remap
+    for (a, b) in [(0.0f32, -0.0f32), (-0.0, 0.0)] {
+        r.cases += 1;
+        let m = |z: f32| nalgebra::Affine3::from_matrix_unchecked(nalgebra::Matrix4::new(1.0, z, 0.0, 0.5, 0.0, 2.0, z, 0.0, 0.0, 0.0, 1.0, z, 0.0, 0.0, 0.0, 1.0));
+        let base = Tree::x() + Tree::y() * Tree::z();
+        let (ta, tb) = (base.remap_affine(m(a)), base.remap_affine(m(b)));
+        if ta == tb && h(&ta) != h(&tb) {
+            r.fail(format!("eq-hash:affine:{:#x}", a.to_bits()), format!("[tree-eq-hash] two affine remaps of the same tree whose matrices differ only in the sign of zero entries ({a:?} vs {b:?}) compare equal but hash differently"), json!({"contract":"tree_clauses","seed":seed,"eq_hash":true}));
+        }
+    }
+}
+
 pub fn tree_clauses(thorough: bool, seed: u64) -> Report {
     let mut r = Report::new("tree_clauses");
     let count = if thorough { 6000 } else { 1200 };
@@ -306,9 +343,10 @@ pub fn tree_clauses(thorough: bool, seed: u64) -> Report {
         let e = E::Bin(B::Add, Box::new(s.clone()), Box::new(E::Un(U::Sin, Box::new(s))));
         check_expr(count + i, &e, &mut ctx_long, &mut r, seed);
     }
+    eq_implies_hash(&mut r, seed);
     deep(&mut r);
     r.distinct = r.cases;
-    r.space = format!("{count} seeded random expressions (depth 2..=5 over x, y, z, 6 constants, 6 unary and 6 binary operations, subexpressions reused with probability 1/3) + 200 fixed witnesses; per expression: shared vs unshared vs exported tree (==, Hash, HashSet lookup), constructor dedup, import == constructor node, import(export(n)) == n, import into ONE long-lived context after the previous tree was dropped and evaluation at 4 points against an operation-by-operation f32 evaluator; one 300000-deep chain on a 192 KiB stack");
+    r.space = format!("{count} seeded random expressions (depth 2..=5 over x, y, z, 6 constants, 6 unary and 6 binary operations, subexpressions reused with probability 1/3) + 200 fixed witnesses; per expression: shared vs unshared vs exported tree (==, Hash, HashSet lookup), constructor dedup, import == constructor node, import(export(n)) == n, import into ONE long-lived context after the previous tree was dropped and evaluation at 4 points against an operation-by-operation f32 evaluator; 22 pairs of trees that differ only in the bit pattern of a constant or affine-matrix entry that `==` identifies (0.0 / -0.0, two NaNs): if they compare equal they must hash equally and find each other in a HashSet; one 300000-deep chain on a 192 KiB stack");
     r
 }
 
